@@ -35,7 +35,7 @@ struct WsConn {
 
 pub async fn scenario() {
 	let sweep_base = rt::param("sweep_base").is_some();
-	let entry = *rt::pick("entry", &[Entry::Default, Entry::Tower, Entry::Default]);
+	let entry = *rt::pick("entry", &[Entry::Default, Entry::Tower, Entry::Default, Entry::LowLevel]);
 	let buf_cap = *rt::pick("buf_cap", &[1024u32, 1, 2]);
 	let frag = if rt::chance("frag", 1, 4) { Frag { short: true, latency_ms: 2, cap: *rt::pick("stream_cap", &[0usize, 48, 200]) } } else { Frag::default() };
 	let n_ws = rt::draw("n_ws", 3) as usize;
